@@ -78,6 +78,14 @@ def run(rep, tier, seed):
                 rep.violation("C07/sibling-session", f"two sessions with the same device address in one process; A: {first}, then B: {second} (then both forced): stop callbacks "
                               f"invoked {calls}, expected {want} (each callback once, True iff a graceful disconnect was initiated on that connection)",
                               {"kind": "siblings", "first": first, "second": second})
+    for ending in ("request", "reset", "force"):
+        calls = foreign_loop_probe(ending)
+        want = [ending != "reset"]
+        rep.case(("foreign-loop", ending), True, sample={"client_built_under_another_loop": ending, "callbacks": calls})
+        rep.bump("probe:foreign-loop")
+        if calls != want:
+            rep.violation("C07/stop-callback-lost", f"APIClient constructed while another event loop was current, session established on the running loop and ended by {ending}: "
+                          f"stop callback invocations {calls}, expected {want}", {"kind": "foreign-loop", "ending": ending})
 
 
 def siblings_probe(first_event, second_event):
@@ -144,6 +152,44 @@ def siblings_probe(first_event, second_event):
     return simnet.run(go)
 
 
+def foreign_loop_probe(ending):
+    """The client object was constructed while another event loop was current (built before asyncio.run()); the session runs on
+    the running loop and ends by `ending`: the stop callback given at connect time still runs exactly once, with the right reason."""
+    import asyncio
+    from vlib import simnet
+    cli, other = simnet.client_built_elsewhere()
+
+    async def go(loop):
+        from aioesphomeapi import api_pb2 as pb
+        net = simnet.Net(loop)
+        calls = []
+
+        async def on_stop(expected):
+            calls.append(bool(expected))
+        with net.patched():
+            _, tr = await simnet.connected_client(loop, net, on_stop=on_stop, client=cli)
+            if ending == "request":
+                tr.feed(simnet.plain_msg(pb.DisconnectRequest()))
+            elif ending == "reset":
+                tr.lose(ConnectionResetError("reset"))
+            else:
+                await cli.disconnect(force=True)
+            await simnet.drain(loop)
+            await simnet.advance(loop, by=1.0)
+            try:
+                await cli.disconnect(force=True)
+            except Exception:  # noqa: BLE001
+                pass
+            await simnet.drain(loop)
+        return calls
+    try:
+        return simnet.run(go)
+    except Exception as e:  # noqa: BLE001
+        return "raised " + type(e).__name__ + ": " + str(e)[:80]
+    finally:
+        other.close()
+
+
 def reconnect_from_hook_probe(ending):
     """The application's stop callback reconnects at once (as ReconnectLogic does after an unexpected drop), handing over the
     callback for the NEW session; that session is established and ends: its callback fires exactly once too."""
@@ -203,6 +249,12 @@ def reconnect_from_hook_probe(ending):
 
 def replay(path):
     d = json.loads(open(path).read())["replay"]
+    if d.get("kind") == "foreign-loop":
+        from vlib import common
+        common.setup_impl_path()
+        calls = foreign_loop_probe(d["ending"])
+        print(calls)
+        return 1 if calls != [d["ending"] != "reset"] else 0
     if d.get("kind") == "siblings":
         from vlib import common
         common.setup_impl_path()
